@@ -744,3 +744,4 @@ MANIFEST = {
 MANIFEST["text"] += ' Fresh-interpreter loads run under ANOTHER string-hash salt, also for objects that were compared / hashed / used as keys / converted before pickling; the loaded units and containers must be equal (both orders), hash alike and be found as dict keys against the same thing built in that interpreter.'
 MANIFEST["text"] += ' A unit with fractional exponents (meter ** 0.1 / second ** 0.3) is in the alphabet for every way and registry type.'
 MANIFEST["text"] += ' Redefinitions of an existing unit on the copy and on the source are among the deep-copy history events.'
+MANIFEST["text"] += ' A unit with 16- and 8-digit exponents is in the alphabet.'
